@@ -9,48 +9,48 @@ open P2PVerif P2PVerif.P2PKE
 
 /-- ⊢ in every reachable state: the established (current and previous) sessions are with the channel's remote
     key, and that key was accepted by the predicate — whichever side initiated. -/
-theorem never_ready_with_rejected (key : KeyId) (accept : KeyId → Bool) (ra ka : Nat) (lt : IdLt) (ops : List COp) :
-    let c := (Chan.fresh key accept ra ka).run lt ops
+theorem never_ready_with_rejected (key : KeyId) (accept : KeyId → Bool) (ra ka ht : Nat) (lt : IdLt) (ops : List COp) :
+    let c := (Chan.fresh key accept ra ka ht).run lt ops
     (∀ k, c.remoteKey = some k → accept k = true) ∧
     (∀ e, c.cur = some e → e.sess.isReady = true ∧ e.sess.rKey = c.remoteKey ∧ c.remoteKey.isSome) ∧
     (∀ e, c.prev = some e → e.sess.rKey = c.remoteKey ∧ c.remoteKey.isSome) :=
-  P2PKE.never_ready_with_rejected key accept ra ka lt ops
+  P2PKE.never_ready_with_rejected key accept ra ka ht lt ops
 
 /-- ⊢ application data is only ever handed up from a session whose remote key is the accepted remote key of the
     channel. -/
-theorem never_delivers_from_rejected (key : KeyId) (accept : KeyId → Bool) (ra ka : Nat) (lt : IdLt) (ops : List COp)
+theorem never_delivers_from_rejected (key : KeyId) (accept : KeyId → Bool) (ra ka ht : Nat) (lt : IdLt) (ops : List COp)
     (w : Wire) (eph now : Nat) (p : Bytes) :
-    let c := (Chan.fresh key accept ra ka).run lt ops
+    let c := (Chan.fresh key accept ra ka ht).run lt ops
     (c.step lt (.deliver w eph now)).2.app = some p →
     ∃ k, (c.step lt (.deliver w eph now)).1.remoteKey = some k ∧ accept k = true ∧
       ∃ e, ((c.step lt (.deliver w eph now)).1.cur = some e ∨ (c.step lt (.deliver w eph now)).1.prev = some e) ∧
         e.sess.rKey = some k ∧ (e.sess.deliver w now).2 ≠ .err :=
-  P2PKE.never_delivers_from_rejected key accept ra ka lt ops w eph now p
+  P2PKE.never_delivers_from_rejected key accept ra ka ht lt ops w eph now p
 
 /-- ⊢ application data is only ever encrypted by the current session, whose remote key is the accepted one. -/
-theorem never_encrypts_to_rejected (key : KeyId) (accept : KeyId → Bool) (ra ka : Nat) (lt : IdLt) (ops : List COp)
+theorem never_encrypts_to_rejected (key : KeyId) (accept : KeyId → Bool) (ra ka ht : Nat) (lt : IdLt) (ops : List COp)
     (p : Bytes) (now : Nat) (w : Wire) :
-    let c := (Chan.fresh key accept ra ka).run lt ops
+    let c := (Chan.fresh key accept ra ka ht).run lt ops
     (c.step lt (.send p now)).2.sent = [w] →
     ∃ e k, (c.expire now).cur = some e ∧ e.sess.rKey = some k ∧ accept k = true ∧ (e.sess.send p now).2 = some w :=
-  P2PKE.never_encrypts_to_rejected key accept ra ka lt ops p now w
+  P2PKE.never_encrypts_to_rejected key accept ra ka ht lt ops p now w
 
 /-- ⊢ key continuity: once the channel has a remote key it keeps it through every later operation. -/
-theorem key_continuity (key : KeyId) (accept : KeyId → Bool) (ra ka : Nat) (lt : IdLt) (ops : List COp) (op : COp) (k : KeyId) :
-    let c := (Chan.fresh key accept ra ka).run lt ops
+theorem key_continuity (key : KeyId) (accept : KeyId → Bool) (ra ka ht : Nat) (lt : IdLt) (ops : List COp) (op : COp) (k : KeyId) :
+    let c := (Chan.fresh key accept ra ka ht).run lt ops
     c.remoteKey = some k → (c.step lt op).1.remoteKey = some k :=
-  P2PKE.key_continuity key accept ra ka lt ops op k
+  P2PKE.key_continuity key accept ra ka ht lt ops op k
 
 /-- ⊢ a handshake presenting any other key is refused without disturbing the established session: an incoming
     term either leaves the current session in place (possibly advancing it), or replaces it by a session with
     the same remote key, moving the old one to the previous slot. -/
-theorem foreign_handshake_leaves_current (key : KeyId) (accept : KeyId → Bool) (ra ka : Nat) (lt : IdLt) (ops : List COp)
+theorem foreign_handshake_leaves_current (key : KeyId) (accept : KeyId → Bool) (ra ka ht : Nat) (lt : IdLt) (ops : List COp)
     (w : Wire) (eph now : Nat) (e : Entry) :
-    let c := (Chan.fresh key accept ra ka).run lt ops
+    let c := (Chan.fresh key accept ra ka ht).run lt ops
     c.cur = some e →
     let c' := (c.step lt (.deliver w eph now)).1
     (∃ e', c'.cur = some e' ∧ e'.sess.eph = e.sess.eph) ∨
     (∃ e' p', c'.cur = some e' ∧ c'.prev = some p' ∧ p'.sess.eph = e.sess.eph ∧ e'.sess.rKey = c.remoteKey) :=
-  P2PKE.foreign_handshake_leaves_current key accept ra ka lt ops w eph now e
+  P2PKE.foreign_handshake_leaves_current key accept ra ka ht lt ops w eph now e
 
 end P2PVerif.C05
